@@ -104,16 +104,16 @@ Qed.
 Definition NS (s : st) : Prop := closing s = true \/ timer s = TArmed \/ pending s <> [].
 Definition AB (s : st) : Prop := closing s = true \/ pending s <> [].
 
-Lemma send_closing s r : Inv s -> tr s = true -> closing (fst (send_response s r)) = true.
+Lemma send_closing s r : sent s = closing s -> tr s = true -> closing (fst (send_response s r)) = true.
 Proof.
   intros I T. rewrite send_response_eq. unfold muted. rewrite T. cbn.
-  destruct (sent s) eqn:S; cbn; [|reflexivity]. rewrite <- (i_sent _ _ I). assumption.
+  destruct (sent s) eqn:S; cbn; [|reflexivity]. rewrite <- I. reflexivity.
 Qed.
 
 Lemma spawn_pending s k : pending (fst (spawn s k)) <> [].
 Proof. cbn. destruct (pending s); discriminate. Qed.
 
-Lemma AB_route s line : Inv s -> tr s = true -> AB (fst (route s line)).
+Lemma AB_route s line : sent s = closing s -> tr s = true -> AB (fst (route s line)).
 Proof.
   intros I T. unfold ServerProto.route. destruct (handler line).
   - left. pose proof (send_closing s r I T). destruct (send_response s r); assumption.
@@ -122,7 +122,7 @@ Proof.
   - right. rewrite spawn_let. cbn [fst]. apply spawn_pending.
 Qed.
 
-Lemma AB_handle_gemini s line : Inv s -> tr s = true ->
+Lemma AB_handle_gemini s line : sent s = closing s -> tr s = true ->
   existsb is_oom (snd (handle_gemini s line)) = false -> AB (fst (handle_gemini s line)).
 Proof.
   intros I T. unfold ServerProto.handle_gemini. destruct (gemini_from_line ip6 line).
@@ -138,17 +138,11 @@ Proof.
   rewrite Hu. right. rewrite spawn_let. cbn [fst]. apply spawn_pending.
 Qed.
 
-Lemma Inv_set_await_false s : Inv s -> pending s = [] -> Inv (set_await s false).
+Lemma AB_ptu s : sent s = closing s -> tr s = true -> AB (fst (process_titan_upload s)).
 Proof.
-  intros [? ? ? ? ? ? ?] P. constructor; cbn; auto.
-  rewrite P. cbn. intros [H|[]]. discriminate.
-Qed.
-
-Lemma AB_ptu s : Inv s -> pending s = [] -> tr s = true -> AB (fst (process_titan_upload s)).
-Proof.
-  intros I P T. unfold ServerProto.process_titan_upload.
-  pose proof (Inv_set_await_false s I P) as I1. set (s1 := set_await s false) in *.
-  assert (T1 : tr s1 = true) by exact T.
+  intros I T. unfold ServerProto.process_titan_upload.
+  set (s1 := set_await s false) in *.
+  assert (I1 : sent s1 = closing s1) by exact I. assert (T1 : tr s1 = true) by exact T.
   destruct (titan s1) eqn:Et.
   - destruct (negb has_upload) eqn:Eu; [left; rewrite send_error_eq; apply send_closing; assumption|].
     destruct has_mw.
@@ -157,31 +151,305 @@ Proof.
   - left; rewrite send_error_eq; apply send_closing; assumption.
 Qed.
 
-Lemma NS_htu s line : Inv s -> pending s = [] -> tr s = true ->
+Lemma NS_htu s line : sent s = closing s -> tr s = true ->
   existsb is_oom (snd (handle_titan_url s line)) = false ->
   AB (fst (handle_titan_url s line)) \/ timer (fst (handle_titan_url s line)) = timer s.
 Proof.
-  intros I P T. unfold ServerProto.handle_titan_url.
+  intros I T. unfold ServerProto.handle_titan_url.
   destruct (negb has_upload) eqn:Eu;
     [intros _; left; left; rewrite send_error_eq; apply send_closing; assumption|].
-  assert (U : has_upload = true) by (destruct has_upload; [reflexivity|discriminate]).
   destruct (titan_from_line ip6 line) as [t|k m|].
   - intros _. fold (set_titan s t). set (s1 := set_titan s t).
-    assert (I1 : Inv s1).
-    { destruct I as [? ? ? ? ? ? ?]. constructor; cbn; auto. intros _. split; [discriminate|exact U]. }
     destruct (N.eqb (t_size t) 0).
-    + left. apply AB_ptu; [apply Inv_cancel; assumption|rewrite cancel_timer_eq; assumption
-                          |rewrite cancel_timer_eq; assumption].
+    + left. apply AB_ptu; rewrite cancel_timer_eq; assumption.
     + destruct (N.leb _ _); [|right; reflexivity].
-      left. apply AB_ptu.
-      * apply Inv_set_content, Inv_cancel.
-        destruct I1 as [? ? ? ? ? ? ?]. constructor; cbn; auto.
-        -- rewrite P. intro H; contradiction.
-        -- intros _. split; [discriminate|exact U].
-      * rewrite cancel_timer_eq; assumption.
-      * rewrite cancel_timer_eq; assumption.
+      left. apply AB_ptu; rewrite cancel_timer_eq; assumption.
   - intros _. left; left. rewrite send_error_eq; apply send_closing; assumption.
   - cbn. discriminate.
 Qed.
+
+Lemma AB_NS s : AB s -> NS s.
+Proof. unfold AB, NS. intros [H|H]; [left|right; right]; assumption. Qed.
+
+Lemma closing_mono s s' a : Inv s -> Inv s' -> (closes a + cs s = cs s')%nat ->
+  closing s = true -> closing s' = true.
+Proof.
+  intros I I' E C. rewrite <- (i_sent _ _ I'). rewrite <- (i_sent _ _ I) in C.
+  unfold cs in E. rewrite C in E. destruct (sent s'); [reflexivity|slia].
+Qed.
+
+Lemma NS_data_received s d : Inv s -> tr s = true ->
+  existsb is_oom (snd (data_received s d)) = false -> NS s -> NS (fst (data_received s d)).
+Proof.
+  intros I T O [C|[A|P]].
+  - left. eapply closing_mono; [exact I|apply Inv_data_received; exact I| |exact C].
+    apply (e_closes _ _ _ (Eff_data_received ip6 handler has_mw has_upload peer_ip peer_fp s d)).
+  - revert O. pose proof (i_sent _ _ I) as SC. unfold ServerProto.data_received.
+    set (s1 := set_buf s (buf s ++ d) (line_rcvd s)).
+    assert (SC1 : sent s1 = closing s1) by exact SC. assert (T1 : tr s1 = true) by exact T.
+    assert (A1 : timer s1 = TArmed) by exact A.
+    destruct (negb (line_rcvd s1)).
+    + destruct (break_crlf (buf s1)) as [[line rest]|].
+      * destruct (N.ltb 1024 _); [intros _; left; rewrite send_error_eq; apply send_closing; assumption|].
+        set (s2 := set_buf s1 rest true).
+        destruct (decode line) as [url|];
+          [|intros _; left; rewrite send_error_eq; apply send_closing; assumption].
+        destruct (prefixb titan_prefix url).
+        -- intro O. destruct (NS_htu s2 url SC1 T1 O) as [H|H]; [apply AB_NS, H|].
+           right; left. rewrite H. exact A.
+        -- intro O. apply AB_NS, AB_handle_gemini; try assumption; rewrite cancel_timer_eq; assumption.
+      * destruct (N.ltb 1024 _); [intros _; left; rewrite send_error_eq; apply send_closing; assumption|].
+        intros _. right; left; exact A.
+    + destruct (await_titan s1); [|intros _; right; left; exact A].
+      destruct (titan s1); [|intros _; right; left; exact A].
+      destruct (N.leb _ _); [|intros _; right; left; exact A].
+      intros _. apply AB_NS, AB_ptu; cbn [sent closing tr set_content]; rewrite cancel_timer_eq; assumption.
+  - destruct (i_pend _ _ I P) as [L W]. rewrite (trailing_ignored_gen s d L W). right; right. exact P.
+Qed.
+
+Lemma NS_feed sl : forall s, Inv s -> tr s = true ->
+  existsb is_oom (snd (feed s sl)) = false -> NS s -> NS (fst (feed s sl)).
+Proof.
+  induction sl as [|d r IH]; intros s I T; cbn; [auto|].
+  pose proof (NS_data_received s d I T) as H1.
+  pose proof (Inv_data_received ip6 handler has_mw has_upload peer_ip peer_fp s d I) as I1.
+  pose proof (e_tr _ _ _ (Eff_data_received ip6 handler has_mw has_upload peer_ip peer_fp s d)) as T1.
+  destruct (data_received s d) as [s1 a1]. cbn [fst snd] in *.
+  specialize (IH s1 I1). destruct (feed s1 r) as [s2 a2]. cbn [fst snd] in *.
+  rewrite existsb_app. intros O N. apply orb_false_iff in O as [O1 O2].
+  apply IH; [congruence|assumption|]. apply H1; assumption.
+Qed.
+
+Lemma NS_task_done s id o : Inv s -> tr s = true -> NS s -> NS (fst (task_done s id o)).
+Proof.
+  intros I T N. unfold ServerProto.task_done.
+  destruct (take_task_small id (pending s) (i_len _ _ I)) as [->|[k [P ->]]]; [exact N|].
+  destruct (Ready_after_take has_upload s k id I P) as [R K]. set (s1 := set_pending s []) in *.
+  assert (SC1 : sent s1 = closing s1) by exact (i_sent _ _ I). assert (T1 : tr s1 = true) by exact T.
+  assert (S : forall r, NS (fst (send_response s1 r))) by (intro; left; apply send_closing; assumption).
+  destruct k; destruct o as [r|m|[|] text|]; norm_err; try apply S;
+    try (apply AB_NS, AB_route; assumption).
+  all: apply AB_NS, AB_start_upload; apply K; reflexivity.
+Qed.
+
+Lemma NS_step s e : Inv s -> tr s = true -> e <> ELost ->
+  existsb is_oom (snd (step s e)) = false -> NS s -> NS (fst (step s e)).
+Proof.
+  intros I T NL. destruct e; cbn [ServerProto.step]; try congruence.
+  - rewrite T. apply NS_feed; assumption.
+  - intros _ N. destruct (timer s) eqn:A; try exact N.
+    cbn. rewrite T. cbn. destruct (negb (closing s) && negb (sent s)) eqn:E; cbn; left; [reflexivity|].
+    cbn. rewrite (i_sent _ _ I) in E. destruct (closing s); [reflexivity|discriminate].
+  - intros _. apply NS_task_done; assumption.
+Qed.
+
+Lemma NS_final evs : forall s, Inv s -> tr s = true -> has_lost evs = false ->
+  existsb is_oom (flat (run s evs)) = false -> NS s -> NS (final s evs).
+Proof.
+  induction evs as [|e r IH]; intros s I T L O N; [exact N|].
+  rewrite run_cons, flat_cons, existsb_app in O. apply orb_false_iff in O as [O1 O2].
+  assert (NL : e <> ELost) by (intro; subst; discriminate).
+  assert (L' : has_lost r = false) by (destruct e; try congruence; exact L).
+  rewrite final_cons. apply IH; auto.
+  - apply Inv_step; assumption.
+  - rewrite (e_tr _ _ _ (Eff_step s e NL)). assumption.
+  - apply NS_step; assumption.
+Qed.
+
+Theorem no_stuck_partial_gen evs :
+  has_lost evs = false ->
+  existsb (fun a => match a with AOutOfModel => true | _ => false end) (flat (run init evs)) = false ->
+  let s := final init evs in closing s = true \/ timer s = TArmed \/ pending s <> [].
+Proof.
+  intros L O. apply NS_final; auto.
+  - apply Inv_init.
+  - right; left; reflexivity.
+Qed.
+
+(* ================= started => timer not armed ================= *)
+Lemma start_htu s line : existsb is_start (snd (handle_titan_url s line)) = true ->
+  timer (fst (handle_titan_url s line)) <> TArmed.
+Proof.
+  unfold ServerProto.handle_titan_url.
+  destruct (negb has_upload); [rewrite send_error_eq, send_start; discriminate|].
+  destruct (titan_from_line ip6 line) as [t|k m|].
+  - fold (set_titan s t). set (s1 := set_titan s t).
+    pose proof (fun x => e_timer _ _ _ (Eff_ptu has_mw has_upload peer_ip peer_fp x)) as H.
+    destruct (N.eqb (t_size t) 0).
+    + intros _. apply H, cancel_timer_not_armed.
+    + destruct (N.leb _ _); [|cbn; discriminate].
+      intros _. apply H. cbn [timer set_content]. apply cancel_timer_not_armed.
+  - rewrite send_error_eq, send_start; discriminate.
+  - cbn. discriminate.
+Qed.
+
+Lemma start_data_received s d : existsb is_start (snd (data_received s d)) = true ->
+  timer (fst (data_received s d)) <> TArmed.
+Proof.
+  unfold ServerProto.data_received. set (s1 := set_buf s (buf s ++ d) (line_rcvd s)).
+  destruct (negb (line_rcvd s1)).
+  - destruct (break_crlf (buf s1)) as [[line rest]|].
+    + destruct (N.ltb 1024 _); [rewrite send_error_eq, send_start; discriminate|].
+      destruct (decode line) as [url|]; [|rewrite send_error_eq, send_start; discriminate].
+      destruct (prefixb titan_prefix url); [apply start_htu|].
+      intros _. apply (e_timer _ _ _ (Eff_handle_gemini ip6 handler has_mw peer_ip peer_fp _ _)).
+      apply cancel_timer_not_armed.
+    + destruct (N.ltb 1024 _); [rewrite send_error_eq, send_start; discriminate|cbn; discriminate].
+  - destruct (await_titan s1); [|cbn; discriminate]. destruct (titan s1); [|cbn; discriminate].
+    destruct (N.leb _ _); [|cbn; discriminate].
+    intros _. apply (e_timer _ _ _ (Eff_ptu has_mw has_upload peer_ip peer_fp _)).
+    cbn [timer set_content]. apply cancel_timer_not_armed.
+Qed.
+
+Lemma start_feed sl : forall s, existsb is_start (snd (feed s sl)) = true ->
+  timer (fst (feed s sl)) <> TArmed.
+Proof.
+  induction sl as [|d r IH]; intros s; cbn; [discriminate|].
+  pose proof (start_data_received s d) as H1. destruct (data_received s d) as [s1 a1].
+  specialize (IH s1).
+  pose proof (e_timer _ _ _ (Eff_feed ip6 handler has_mw has_upload peer_ip peer_fp r s1)) as M.
+  destruct (feed s1 r) as [s2 a2]. cbn [fst snd] in *.
+  rewrite existsb_app. intro H. apply orb_true_iff in H as [H|H]; auto.
+Qed.
+
+Lemma start_step s e : Inv s -> existsb is_start (snd (step s e)) = true ->
+  timer (fst (step s e)) <> TArmed.
+Proof.
+  intro I. destruct e; cbn [ServerProto.step].
+  - destruct (tr s); [apply start_feed|cbn; discriminate].
+  - destruct (timer s); cbn; try discriminate.
+    destruct (tr s && negb (closing s) && negb (sent s)); cbn; discriminate.
+  - unfold ServerProto.task_done at 1.
+    destruct (take_task_small id (pending s) (i_len _ _ I)) as [E|[k [P E]]].
+    + unfold ServerProto.task_done. rewrite E. cbn. discriminate.
+    + intros _. apply (e_timer _ _ _ (Eff_task_done handler has_upload s id o)).
+      intro A. destruct (i_armed _ _ I A) as [H _]. congruence.
+  - destruct (tr s); cbn; discriminate.
+Qed.
+
+Lemma step_timer_mono s e : timer s <> TArmed -> timer (fst (step s e)) <> TArmed.
+Proof.
+  destruct (event_eq_lost e) as [->|NL]; [|apply (e_timer _ _ _ (Eff_step s e NL))].
+  cbn. destruct (tr s); cbn; auto. intros _. apply cancel_timer_not_armed.
+Qed.
+
+Lemma not_armed_run evs : forall s started, Inv s -> (started = true -> timer s <> TArmed) ->
+  Spec.C15.not_armed_after_complete (run s evs) started = true.
+Proof.
+  induction evs as [|e r IH]; intros s started I H; [reflexivity|].
+  rewrite run_cons. cbn [Spec.C15.not_armed_after_complete].
+  change (fun x : action => match spawn_id x with Some _ => true | None => is_invocation x end) with is_start.
+  set (st' := started || existsb is_start (snd (step s e))).
+  assert (H' : st' = true -> timer (fst (step s e)) <> TArmed).
+  { unfold st'. intro E. apply orb_true_iff in E as [E|E].
+    - apply step_timer_mono; auto.
+    - apply start_step; assumption. }
+  apply andb_true_iff. split.
+  - destruct st'; [|reflexivity]. destruct (timer (fst (step s e))); try reflexivity.
+    exfalso. apply H'; reflexivity.
+  - apply IH; [apply Inv_step; assumption|assumption].
+Qed.
+
+(* ================= timer firing on an unanswered connection ================= *)
+Lemma timeout_run evs : forall s ab resp, Inv s ->
+  ab = (match timer s with TArmed => true | _ => false end) -> (resp = false -> sent s = false) ->
+  Spec.C15.timeout_response evs (run s evs) ab resp = true.
+Proof.
+  induction evs as [|e r IH]; intros s ab resp I A R; [reflexivity|].
+  rewrite run_cons. cbn [Spec.C15.timeout_response].
+  change (fun x : action => match x with AClose => true | _ => false end) with is_close.
+  apply andb_true_iff. split.
+  - destruct e; try reflexivity. destruct ab; [|reflexivity]. destruct resp; [reflexivity|]. cbn [negb andb].
+    destruct (timer s) eqn:T; try discriminate.
+    destruct (i_armed _ _ I T) as [_ TR]. pose proof (i_sent _ _ I) as C. specialize (R eq_refl).
+    cbn. rewrite T. cbn. rewrite TR, <- C, R. cbn. reflexivity.
+  - apply IH; [apply Inv_step; assumption|reflexivity|].
+    intro H. apply orb_false_iff in H as [H1 H2]. specialize (R H1).
+    pose proof (step_closes ip6 handler has_mw has_upload peer_ip peer_fp s e) as E.
+    apply existsb_count in H2. unfold closes, cs in E. rewrite H2, R in E.
+    destruct (sent (fst (step s e))); [slia|reflexivity].
+Qed.
+
+(* ================= C04: no invocation without an allow verdict ================= *)
+Section NoAllow.
+Hypothesis MW : has_mw = true.
+
+Lemma na_handle_gemini s line : invocs (snd (handle_gemini s line)) = 0%nat.
+Proof using MW.
+  unfold ServerProto.handle_gemini. rewrite MW. destruct (gemini_from_line ip6 line).
+  - rewrite spawn_let. reflexivity.
+  - rewrite send_error_eq. apply send_invocs.
+  - reflexivity.
+Qed.
+
+Lemma na_ptu s : invocs (snd (process_titan_upload s)) = 0%nat.
+Proof using MW.
+  unfold ServerProto.process_titan_upload. rewrite MW. destruct (titan (set_await s false)).
+  - destruct (negb has_upload); [rewrite send_error_eq; apply send_invocs|].
+    rewrite spawn_let. reflexivity.
+  - rewrite send_error_eq; apply send_invocs.
+Qed.
+
+Lemma na_htu s line : invocs (snd (handle_titan_url s line)) = 0%nat.
+Proof using MW.
+  unfold ServerProto.handle_titan_url.
+  destruct (negb has_upload); [rewrite send_error_eq; apply send_invocs|].
+  destruct (titan_from_line ip6 line) as [t|k m|].
+  - destruct (N.eqb (t_size t) 0); [apply na_ptu|].
+    destruct (N.leb _ _); [apply na_ptu|reflexivity].
+  - rewrite send_error_eq; apply send_invocs.
+  - reflexivity.
+Qed.
+
+Lemma na_data_received s d : invocs (snd (data_received s d)) = 0%nat.
+Proof using MW.
+  unfold ServerProto.data_received. set (s1 := set_buf s (buf s ++ d) (line_rcvd s)).
+  destruct (negb (line_rcvd s1)).
+  - destruct (break_crlf (buf s1)) as [[line rest]|].
+    + destruct (N.ltb 1024 _); [rewrite send_error_eq; apply send_invocs|].
+      destruct (decode line) as [url|]; [|rewrite send_error_eq; apply send_invocs].
+      destruct (prefixb titan_prefix url); [apply na_htu|apply na_handle_gemini].
+    + destruct (N.ltb 1024 _); [rewrite send_error_eq; apply send_invocs|reflexivity].
+  - destruct (await_titan s1); [|reflexivity]. destruct (titan s1); [|reflexivity].
+    destruct (N.leb _ _); [apply na_ptu|reflexivity].
+Qed.
+
+Lemma na_feed sl : forall s, invocs (snd (feed s sl)) = 0%nat.
+Proof using MW.
+  induction sl as [|d r IH]; intros s; cbn; [reflexivity|].
+  pose proof (na_data_received s d) as H1. destruct (data_received s d) as [s1 a1].
+  specialize (IH s1). destruct (feed s1 r) as [s2 a2]. cbn [fst snd] in *.
+  rewrite invocs_app, H1, IH. reflexivity.
+Qed.
+
+Definition not_allow (o : outcome) : Prop := forall t, o <> OMw true t.
+
+Lemma na_task_done s id o : not_allow o -> invocs (snd (task_done s id o)) = 0%nat.
+Proof using MW.
+  intro NA. unfold ServerProto.task_done.
+  destruct (take_task id (pending s)) as [[k|] rest]; [|reflexivity].
+  destruct k; destruct o as [r|m|[|] text|]; norm_err; try apply send_invocs;
+    exfalso; eapply NA; reflexivity.
+Qed.
+
+Lemma na_step s e : (forall i t, e <> EDone i (OMw true t)) -> invocs (snd (step s e)) = 0%nat.
+Proof using MW.
+  intro NA. destruct e; cbn [ServerProto.step].
+  - destruct (tr s); [apply na_feed|reflexivity].
+  - destruct (timer s); try reflexivity. cbn.
+    destruct (tr s && negb (closing s) && negb (sent s)); reflexivity.
+  - apply na_task_done. intros t E. apply (NA id t). congruence.
+  - destruct (tr s); reflexivity.
+Qed.
+
+Lemma na_run evs : forall s, (forall i t, ~ In (EDone i (OMw true t)) evs) ->
+  invocs (flat (run s evs)) = 0%nat.
+Proof using MW.
+  induction evs as [|e r IH]; intros s NA; [reflexivity|].
+  rewrite run_cons, flat_cons, invocs_app, na_step, IH; [reflexivity| |].
+  - intros i t H. apply (NA i t). left. assumption.
+  - intros i t H. apply (NA i t). right. assumption.
+Qed.
+End NoAllow.
 
 End Proto.
